@@ -176,18 +176,29 @@ def evalTE (D : J) (sc : List J) : TE → J
     let parts := ps.map fun p => match p with | .inl s => J.str s | .inr e => evalE D sc e
     if parts.any J.hasUnsup then .unsup else .str (String.join (parts.map fun v => match v with | .str s => s | v => v.y))
 
-/-- the instance: values as above, every guard answers "may have changed" -/
-def jsonSem : Sem TE J Unit where
+/-- the instance: values as above, every guard answers "may have changed"; a tree is one bit, "is `undefined`": when the whole data
+tree is `true` the generated code hands every list `undefined` (`true.field`), and lists are then matched by position; otherwise the
+keyed path is taken with every item told `true` (for a covering tree the by-position path, taken when a list's own tree is
+`undefined`, reuses the same nodes: the list is then unchanged) -/
+def jsonSem : Sem TE J Bool where
   eval := fun e D sc => evalTE D sc e
   truthy := J.truthy
   str := J.y
   items := J.items
   same := J.same
-  all := ()
-  none := ()
+  all := false
+  none := true
   dirty := fun _ _ _ => true
-  treeOf := fun _ _ _ => ()
-  child := fun _ _ => ()
+  treeOf := fun _ U _ => U
+  child := fun L _ => L
+  rawKey := fun key item =>
+    match (if key == "*this" then item else J.member item key) with
+    | .null | .undef => ""
+    | v => if v.hasUnsup then "\x01unsupported" else v.toStr
+  isAll := fun t => !t
+  isNone := fun t => t
+  keyMarks := fun _ _ => true
+  anyMarked := fun _ _ => true
 
 /-! ### printing a node tree (canonical text compared with the real runtime's dump) -/
 
@@ -198,7 +209,8 @@ partial def Node.print : Node J → String
     s!"E{b}:{tag}[" ++ ",".intercalate (attrs.map fun a => a.1 ++ "=" ++ a.2.toJson) ++ "](" ++ ch.print ++ ")"
   | .virt b ch => s!"V{b}(" ++ ch.print ++ ")"
   | .ifn b k ch => s!"I{b}#{k}(" ++ ch.print ++ ")"
-  | .forn b its => s!"F{b}(" ++ its.print ++ ")"
+  | .forn b its => s!"F{b}[](" ++ its.print ++ ")"
+  | .fornK b raw its => s!"F{b}[" ++ ",".intercalate ((GE.Rlm.uniq raw).map GE.Codec.jsonStr) ++ "](" ++ its.print ++ ")"
 partial def Nodes.print : Nodes J → String
   | .nil => ""
   | .cons n .nil => n.print
@@ -216,6 +228,7 @@ partial def Node.hasUnsup : Node J → Bool
   | .virt _ ch => ch.hasUnsup
   | .ifn _ _ ch => ch.hasUnsup
   | .forn _ its => its.hasUnsup
+  | .fornK _ raw its => raw.any (fun k => (k.splitOn "\x01unsupported").length > 1) || its.hasUnsup
 partial def Nodes.hasUnsup : Nodes J → Bool
   | .nil => false
   | .cons n r => n.hasUnsup || r.hasUnsup
